@@ -52,7 +52,7 @@ def dominates_or_equal(y, x):
 
 def agefit_case(ctx, rep, rng, lines, meta):
     n = rng.randrange(1, 31) if rng.random() < 0.8 else rng.randrange(1, 6)
-    sel = rng.choice([2, 2, 3, 5, 8])
+    sel = rng.choice([2, 2, 3, 3, 4, 5, 8])
     target = rng.randrange(1, n + 1)
     pop = mkpop(rng, n, nan_prob=rng.choice([0.0, 0.15, 0.6]))
     if rng.random() < 0.1 and n >= 2:
@@ -106,6 +106,12 @@ def agefit_case(ctx, rep, rng, lines, meta):
                 rep.violate(f"age-fitness removed (key {px.key}, age {px.genetic_age}) although no surviving individual is no older and no worse",
                             "C08:agefit-unjustified-removal", {**case, "round_inds": inds, "removed": rem})
                 break
+    # who was ACTUALLY discarded (the tail of the permuted list) must be exactly who was decided for removal
+    decided = sorted(id(before[x]) for (before, rem, _, _) in removals for x in rem)
+    discarded = sorted(id(c) for c in work[len(out):])
+    if len(out) <= len(work) and decided != discarded:
+        rep.violate("age-fitness discarded an individual that was not selected for removal (and kept one that was)",
+                    "C08:agefit-wrong-individual-discarded", case)
     if ctx.driver_ok:
         lines.append(f"agefit ; {sel} ; {target} ; {before_s} ; " + " ; ".join(" ".join(map(str, d)) for d in draws))
         log = [[before[i].values[0] for i in rem] for (before, rem, _, _) in removals]
